@@ -72,6 +72,16 @@ for _mk, _parser, _sel in [
     _b = [e.get('id') for e in soupsieve.select(_sel, _soup, namespaces=_NS)]
     _c = _soup.select_one(_sel, namespaces=_NS)
     _out.append([_a, _b, _c.get('id') if _c is not None else None])
+# the same namespaces dict object, re-bound in place between two calls
+_soup = BeautifulSoup('<r xmlns:a="urn:one" xmlns:b="urn:two"><a:item id="1"/><b:item id="2"/><a:item id="3"/></r>', 'xml')
+_map = {'p': 'urn:one'}
+_first = [e.get('id') for e in _soup.select('p|item', namespaces=_map)]
+_map['p'] = 'urn:two'
+_a = [e.get('id') for e in _soup.select('p|item', namespaces=_map)]
+_b = [e.get('id') for e in soupsieve.select('p|item', _soup, namespaces=dict(_map))]
+_c = _soup.select_one('p|item', namespaces=_map)
+_out.append([_first + ['|'] + _a, _first + ['|'] + _b, None if not _a else ('1' if False else _first[0])])
+_out.append([_a, _b, _c.get('id') if _c is not None else None])
 _cw.__exit__(None, None, None)
 _bad = [[str(x.category.__name__), str(x.message)[:80], x.filename] for x in _w if os.path.realpath(x.filename).startswith(_pkg)]
 sys.stdout.write(json.dumps({'results': _out, 'warnings': _bad}) + '\n')
